@@ -10,7 +10,15 @@ tape-chosen pieces (net.cut with the layout offsets as preferred cut points).
 Three families: valid (round trip + extra bytes), truncated at a tape-chosen
 offset followed by noMoreData(), malformed (non-hex size line / chunk data not
 followed by CRLF / forbidden byte in an extension / size line longer than the
-documented limit, at a tape-chosen chunk).
+documented limit / size line ended by something other than CRLF, at a tape-chosen chunk).
+
+Line terminators: the two-byte CRLF is the only terminator of the chunked framing.  The
+malformation "nocrlf" puts in the place of the CRLF that follows some chunk's data two other
+bytes, one byte only (bare LF, bare CR, any other byte), nothing, or 1..3 tape-drawn bytes
+from a CR/LF-heavy alphabet (never beginning with CRLF); the malformation "lineend" ends a
+size line (of a chunk or of the last-chunk) with bare LF, bare CR, LF CR, CR CR LF or
+LF CR LF instead of CRLF, so that the bytes up to the next CRLF of the stream - the size
+line - contain a CR or LF, which is neither a hex digit nor allowed in an extension.
 
 Documented size limit: the public module setting twisted.web.http.maxChunkSizeLineLength
 is a per-run knob (left alone, raised or lowered; restored afterwards).  One size line of
@@ -61,7 +69,9 @@ COMPONENTS = {
 RULE = ("run = 0..5 chunks (sizes 1..3000, rarely 70000) encoded by toChunk or by the reference encoder with extensions/"
         "trailers, + 0..30 extra bytes; per-run knob http.maxChunkSizeLineLength (default / 1500..4096 / 64..300) and optionally one "
         "size line padded by a long valid extension to just inside the limit in force or between the default and that limit; "
-        "family valid / truncated+noMoreData / malformed (nonhex, badext, nocrlf, overlong = line padded beyond the limit in "
+        "family valid / truncated+noMoreData / malformed (nonhex, badext, nocrlf = the CRLF after a chunk's data replaced by two "
+        "other bytes / one byte such as bare LF or bare CR / nothing / 1..3 drawn bytes, lineend = a size line ended by bare LF, "
+        "bare CR, LF CR, CR CR LF or LF CR LF, overlong = line padded beyond the limit in "
         "force); malformed family: 1..3 fresh decoders get the malformed stream, optionally the valid original in between or "
         "before, each judged; delivered in tape-chosen pieces; non-trivial = the stream was cut at least once")
 ASSUMPTIONS = [
@@ -72,10 +82,19 @@ ASSUMPTIONS = [
     "after finishCallback the caller stops feeding the decoder (as HTTPChannel does), so 'extra bytes' are those that "
     "followed the end of the message within the same delivery",
     "no BWS between chunk-size and ';' is generated (the decoder rejects it; RFC 9112 tolerates it on receipt)",
+    "terminator variants (bare LF, bare CR, ...) are generated only where the statement names a verdict: after chunk data "
+    "('chunk data not followed by CRLF') and at the end of a size line (the line up to the next CRLF then holds a CR/LF: not "
+    "hexadecimal / disallowed byte in the extension); trailer lines and the final empty line keep their CRLF (the statement "
+    "is silent on them)",
 ]
 
 DEFAULT_LIMIT = http.maxChunkSizeLineLength      # documented module-level setting, as shipped
 STEP_CAP = 20000
+# what may stand in the place of the CRLF that follows chunk data
+TERM_TWO = [b"XY", b"\n\r", b"\r\r", b"\nX", b"\rX", b"", b"\x00\n"]      # two other bytes / nothing
+TERM_ONE = [b"\n", b"\r", b"X", b"\x00", b" "]                          # one byte only (the next size line follows at once)
+# what may end a size line instead of CRLF
+LINE_ENDS = [b"\n", b"\r", b"\n\r", b"\r\r\n", b"\n\r\n"]
 RECUT = ["whole", "one", "few", "edges"]      # segmentation styles for the further decoders of a run (the first gets every style)
 
 
@@ -334,7 +353,7 @@ def _run(sim, limit):
         sim.state(("truncated", what, len(chunks), t >= layout["last_line_end"]))
 
     else:
-        kinds = [("nonhex", 3), ("badext", 3), ("overlong", 2)] + ([("nocrlf", 3)] if chunks else [])
+        kinds = [("nonhex", 3), ("badext", 3), ("overlong", 2), ("lineend", 2)] + ([("nocrlf", 4)] if chunks else [])
         kind = sim.draw_weighted(kinds, "malformation")
         n = len(chunks)
         if info["tochunk"]:
@@ -346,11 +365,38 @@ def _run(sim, limit):
         if kind == "nocrlf":
             j = sim.draw_int(0, n - 1, "chunk")
             a, b = layout["chunks"][j]["crlf"]
-            repl = sim.draw_choice([b"XY", b"\n\r", b"\r\r", b"\nX", b"\rX", b"", b"\x00\n"], "instead")
+            form = sim.draw_weighted([("two", 3), ("one", 3), ("drawn", 1)], "insteadform")
+            if form == "two":
+                repl = sim.draw_choice(TERM_TWO, "instead")
+            elif form == "one":
+                repl = sim.draw_choice(TERM_ONE, "instead1")
+            else:
+                repl = sim.draw_bytes(sim.draw_int(1, 3, "insteadlen"), b"\n\r X0")
+                while repl.startswith(b"\r\n"):
+                    repl = repl[1:]                # would be a CRLF after all (followed by some other malformation)
             stream = ref_wire[:a] + repl + ref_wire[b:]
+            # the next size line begins with a hex digit, so the two bytes after the data are never CR LF
+            assert stream[a:a + 2] != b"\r\n" and len(stream) >= a + 2, (repl, stream[a:a + 4])
+            sim.probe("data_terminator_" + ("bare_lf" if repl == b"\n" else "bare_cr" if repl == b"\r" else
+                                            "empty" if not repl else "one_byte" if len(repl) == 1 else form))
             decisive = a + 2                      # two bytes after the data decide
             want = b"".join(chunks[:j + 1])
             desc = "chunk %d data followed by %r instead of CRLF" % (j, repl)
+        elif kind == "lineend":
+            j = sim.draw_int(0, n, "line")
+            e = layout["chunks"][j]["line"][1] if j < n else layout["last_line"][1]
+            repl = sim.draw_choice(LINE_ENDS, "lineend")
+            if repl == b"\r" and ref_wire[e + 2:e + 3] == b"\n":
+                repl = b"\n"                      # CR + chunk data beginning with LF would be a CRLF after all
+            stream = ref_wire[:e] + repl + ref_wire[e + 2:]
+            # the size line is what precedes the next CRLF of the stream: it holds at least one CR or LF
+            decisive = stream.index(b"\r\n", e) + 2
+            want = b"".join(chunks[:j])
+            desc = "size line %d ends with %r instead of CRLF" % (j, repl)
+            sim.probe("size_line_ended_by_" + ("bare_lf" if repl == b"\n" else "bare_cr" if repl == b"\r" else "stray_cr_or_lf_before_crlf"
+                                               if repl.endswith(b"\r\n") else "lf_cr"))
+            if j == n:
+                sim.probe("last_chunk_line_without_crlf")
         else:
             j = sim.draw_int(0, n, "line")
             if kind == "nonhex":
@@ -458,5 +504,10 @@ MUTANTS = [
     "seeded C22-r4a (module-level size-line cache filled before the extension check) : caught (malformed-accepted:badext/after-M, body-prefix:badext/after-M - the second decoder of a run accepts what the first refused)",
     "module-level set of size texts seen with a valid extension, extension check skipped on a hit : caught (malformed-accepted:badext/after-V)",
     "module-level negative cache keyed by size + first 3 extension bytes : exit 2 only (cross-run leakage in the warm workers is seen first and does not replay in a fresh interpreter; the in-run case needs the bad byte after those 3 bytes and shares its signature)",
+    "seeded C22-r5b (_dataReceived_CRLF consumes a bare LF after chunk data) : caught in quick (malformed-accepted:nocrlf, body-prefix:nocrlf, "
+    "malformed-accepted:nocrlf/after-V) - missed while 'nocrlf' only ever put two other bytes or nothing in the place of the CRLF",
+    "_dataReceived_CRLF accepts a lone CR (consumes 1 byte when CR is not followed by LF) : caught (body-prefix:nocrlf, malformed-accepted:nocrlf/after-V)",
+    "_dataReceived_CHUNK_LENGTH: size line ends at the first LF, preceding CR optional : caught (malformed-accepted:lineend, body-prefix:lineend)",
+    "_dataReceived_CHUNK_LENGTH: '_hexint(bytes(rawLength).strip())' (stray CR/LF/blank around the size tolerated) : caught (malformed-accepted:lineend, body-prefix:nonhex)",
     "INCLUDE_QUOTED_PAIR=True on the unchanged tree: C22:valid-rejected:ext (extension ;a=\"\\\"\" rejected: backslash missing from _chunkExtChars) - not enabled by default, see report",
 ]
